@@ -472,7 +472,7 @@ Theorem pair0_c15 :
   C15_nb_immediate Pair0_now /\
   C15_nb_possible Pair0_now /\
   C15_mirror Pair0_now.
-Proof. split; [exact (pair_c15_nb_immediate PairModel.K0 C08_PAIR0_STOP_WRITABLE_FIXED C08_PAIR0_STALE_FIXED)|]. split; [exact (pair_c15_nb_possible PairModel.K0 C08_PAIR0_STOP_WRITABLE_FIXED C08_PAIR0_STALE_FIXED)|]. exact (pair_c15_mirror PairModel.K0 C08_PAIR0_STALE_FIXED). Qed.
+Proof. split; [exact (pair_c15_nb_immediate PairModel.K0 C08_PAIR0_STOP_WRITABLE_FIXED C08_PAIR0_RESIZE_ADMITS_FIXED C08_PAIR0_STALE_FIXED)|]. split; [exact (pair_c15_nb_possible PairModel.K0 C08_PAIR0_STOP_WRITABLE_FIXED C08_PAIR0_RESIZE_ADMITS_FIXED C08_PAIR0_STALE_FIXED)|]. exact (pair_c15_mirror PairModel.K0 C08_PAIR0_RESIZE_ADMITS_FIXED C08_PAIR0_STALE_FIXED). Qed.
 Print Assumptions pair0_c15.
 Definition pair0_nb_immediate : C15_nb_immediate Pair0_now := proj1 pair0_c15.
 Definition pair0_nb_succeeds_if_possible : C15_nb_possible Pair0_now := proj1 (proj2 pair0_c15).
@@ -487,14 +487,14 @@ Theorem pair0_c15_more :
   C15_nb_strict Pair0_now /\
   C15_mirror_exact Pair0_now /\
   C15_mirror_iff Pair0_now.
-Proof. split; [exact (pair_c15_inv PairModel.K0 C08_PAIR0_STALE_FIXED)|]. split; [exact (pair_c15_nb_strict PairModel.K0 C08_PAIR0_STOP_WRITABLE_FIXED C08_PAIR0_STALE_FIXED)|]. split; [exact (pair_c15_mirror_exact PairModel.K0 C08_PAIR0_STALE_FIXED)|]. exact (pair_c15_mirror_iff PairModel.K0 C08_PAIR0_STALE_FIXED). Qed.
+Proof. split; [exact (pair_c15_inv PairModel.K0 C08_PAIR0_RESIZE_ADMITS_FIXED C08_PAIR0_STALE_FIXED)|]. split; [exact (pair_c15_nb_strict PairModel.K0 C08_PAIR0_STOP_WRITABLE_FIXED C08_PAIR0_RESIZE_ADMITS_FIXED C08_PAIR0_STALE_FIXED)|]. split; [exact (pair_c15_mirror_exact PairModel.K0 C08_PAIR0_RESIZE_ADMITS_FIXED C08_PAIR0_STALE_FIXED)|]. exact (pair_c15_mirror_iff PairModel.K0 C08_PAIR0_RESIZE_ADMITS_FIXED C08_PAIR0_STALE_FIXED). Qed.
 Print Assumptions pair0_c15_more.
 
 Theorem pair1_c15 :
   C15_nb_immediate Pair1_now /\
   C15_nb_possible Pair1_now /\
   C15_mirror Pair1_now.
-Proof. split; [exact (pair_c15_nb_immediate (PairModel.K1 false) C08_PAIR1_STOP_WRITABLE_FIXED C08_PAIR1_STALE_FIXED)|]. split; [exact (pair_c15_nb_possible (PairModel.K1 false) C08_PAIR1_STOP_WRITABLE_FIXED C08_PAIR1_STALE_FIXED)|]. exact (pair_c15_mirror (PairModel.K1 false) C08_PAIR1_STALE_FIXED). Qed.
+Proof. split; [exact (pair_c15_nb_immediate (PairModel.K1 false) C08_PAIR1_STOP_WRITABLE_FIXED C08_PAIR1_RESIZE_ADMITS_FIXED C08_PAIR1_STALE_FIXED)|]. split; [exact (pair_c15_nb_possible (PairModel.K1 false) C08_PAIR1_STOP_WRITABLE_FIXED C08_PAIR1_RESIZE_ADMITS_FIXED C08_PAIR1_STALE_FIXED)|]. exact (pair_c15_mirror (PairModel.K1 false) C08_PAIR1_RESIZE_ADMITS_FIXED C08_PAIR1_STALE_FIXED). Qed.
 Print Assumptions pair1_c15.
 Definition pair1_nb_immediate : C15_nb_immediate Pair1_now := proj1 pair1_c15.
 Definition pair1_nb_succeeds_if_possible : C15_nb_possible Pair1_now := proj1 (proj2 pair1_c15).
@@ -509,14 +509,14 @@ Theorem pair1_c15_more :
   C15_nb_strict Pair1_now /\
   C15_mirror_exact Pair1_now /\
   C15_mirror_iff Pair1_now.
-Proof. split; [exact (pair_c15_inv (PairModel.K1 false) C08_PAIR1_STALE_FIXED)|]. split; [exact (pair_c15_nb_strict (PairModel.K1 false) C08_PAIR1_STOP_WRITABLE_FIXED C08_PAIR1_STALE_FIXED)|]. split; [exact (pair_c15_mirror_exact (PairModel.K1 false) C08_PAIR1_STALE_FIXED)|]. exact (pair_c15_mirror_iff (PairModel.K1 false) C08_PAIR1_STALE_FIXED). Qed.
+Proof. split; [exact (pair_c15_inv (PairModel.K1 false) C08_PAIR1_RESIZE_ADMITS_FIXED C08_PAIR1_STALE_FIXED)|]. split; [exact (pair_c15_nb_strict (PairModel.K1 false) C08_PAIR1_STOP_WRITABLE_FIXED C08_PAIR1_RESIZE_ADMITS_FIXED C08_PAIR1_STALE_FIXED)|]. split; [exact (pair_c15_mirror_exact (PairModel.K1 false) C08_PAIR1_RESIZE_ADMITS_FIXED C08_PAIR1_STALE_FIXED)|]. exact (pair_c15_mirror_iff (PairModel.K1 false) C08_PAIR1_RESIZE_ADMITS_FIXED C08_PAIR1_STALE_FIXED). Qed.
 Print Assumptions pair1_c15_more.
 
 Theorem pair1raw_c15 :
   C15_nb_immediate Pair1raw_now /\
   C15_nb_possible Pair1raw_now /\
   C15_mirror Pair1raw_now.
-Proof. split; [exact (pair_c15_nb_immediate (PairModel.K1 true) C08_PAIR1_STOP_WRITABLE_FIXED C08_PAIR1_STALE_FIXED)|]. split; [exact (pair_c15_nb_possible (PairModel.K1 true) C08_PAIR1_STOP_WRITABLE_FIXED C08_PAIR1_STALE_FIXED)|]. exact (pair_c15_mirror (PairModel.K1 true) C08_PAIR1_STALE_FIXED). Qed.
+Proof. split; [exact (pair_c15_nb_immediate (PairModel.K1 true) C08_PAIR1_STOP_WRITABLE_FIXED C08_PAIR1_RESIZE_ADMITS_FIXED C08_PAIR1_STALE_FIXED)|]. split; [exact (pair_c15_nb_possible (PairModel.K1 true) C08_PAIR1_STOP_WRITABLE_FIXED C08_PAIR1_RESIZE_ADMITS_FIXED C08_PAIR1_STALE_FIXED)|]. exact (pair_c15_mirror (PairModel.K1 true) C08_PAIR1_RESIZE_ADMITS_FIXED C08_PAIR1_STALE_FIXED). Qed.
 Print Assumptions pair1raw_c15.
 Definition pair1raw_nb_immediate : C15_nb_immediate Pair1raw_now := proj1 pair1raw_c15.
 Definition pair1raw_nb_succeeds_if_possible : C15_nb_possible Pair1raw_now := proj1 (proj2 pair1raw_c15).
@@ -531,12 +531,12 @@ Theorem pair1raw_c15_more :
   C15_nb_strict Pair1raw_now /\
   C15_mirror_exact Pair1raw_now /\
   C15_mirror_iff Pair1raw_now.
-Proof. split; [exact (pair_c15_inv (PairModel.K1 true) C08_PAIR1_STALE_FIXED)|]. split; [exact (pair_c15_nb_strict (PairModel.K1 true) C08_PAIR1_STOP_WRITABLE_FIXED C08_PAIR1_STALE_FIXED)|]. split; [exact (pair_c15_mirror_exact (PairModel.K1 true) C08_PAIR1_STALE_FIXED)|]. exact (pair_c15_mirror_iff (PairModel.K1 true) C08_PAIR1_STALE_FIXED). Qed.
+Proof. split; [exact (pair_c15_inv (PairModel.K1 true) C08_PAIR1_RESIZE_ADMITS_FIXED C08_PAIR1_STALE_FIXED)|]. split; [exact (pair_c15_nb_strict (PairModel.K1 true) C08_PAIR1_STOP_WRITABLE_FIXED C08_PAIR1_RESIZE_ADMITS_FIXED C08_PAIR1_STALE_FIXED)|]. split; [exact (pair_c15_mirror_exact (PairModel.K1 true) C08_PAIR1_RESIZE_ADMITS_FIXED C08_PAIR1_STALE_FIXED)|]. exact (pair_c15_mirror_iff (PairModel.K1 true) C08_PAIR1_RESIZE_ADMITS_FIXED C08_PAIR1_STALE_FIXED). Qed.
 Print Assumptions pair1raw_c15_more.
 
 (* pair_poll_mirror_pinned_refuted: the tree as pinned (repaired by 6a91792) *)
 Theorem pairs_c15_more :
-  (forall k fs, ~ C15_mirror (M_pair k false fs)).
+  (forall k fr fs, ~ C15_mirror (M_pair k false fr fs)).
 Proof. exact (pair_c15_mirror_refuted_pinned). Qed.
 Print Assumptions pairs_c15_more.
 
